@@ -41,9 +41,9 @@ def gen_thread_program(rng, max_threads=3, size="small"):
         return out
 
     def spawn():
-        k = rng.randint(1, max(1, max_threads - spawned[0]))
+        k = rng.randint(min(2, max(1, max_threads - spawned[0])), max(1, max_threads - spawned[0]))
         spawned[0] += k
-        return {"k": "spawn", "nid": g._nid(), "mode": rng.choice(["own_task", "continue", "preserve"]),
+        return {"k": "spawn", "nid": g._nid(), "mode": rng.choice(["own_task", "own_task", "continue", "preserve"]),
                 "threads": [body(rng.randint(1, 2 if size == "small" else 4)) for _ in range(k)]}
 
     root = g.act(99, force_style="with")
